@@ -108,8 +108,48 @@ def features_file_store(case):
     return fs
 
 
+def repatched_cases():
+    """deterministic: what changed under the id (a key added / removed / same keys, other values / other arguments) x which
+    program is replayed x missing-key policy of the input x cassette x other replays in between"""
+    out, k = [], 0
+    for first, second in (([1], [1, 2]), ([1, 2], [1]), ([1, 2], [1, 2]), ([1, 2], [3, 1]), ([], [1])):
+        for replay in ("first", "second"):
+            for policy in ("fail", "run", "value"):
+                k += 1
+                out.append(dict(kind="repatched", first=first, second=second, replay=replay, policy=policy,
+                                cassette="file" if k % 3 == 0 else "memory", between=k % 2))
+    return out
+
+
+def direct_repatched(case, obs):
+    if "driver_exception" in obs:
+        return [("driver", obs["driver_exception"] + obs.get("trace", "")[-400:])]
+    fails = []
+    w = ("recording of an operation reading inputs %s replayed on the program reading %s (missing-key policy '%s', %s cassette), "
+         "then re-saved under its id with the data of a run reading %s and replayed again%s" %
+         (case["first"], case[case["replay"]], case["policy"], case["cassette"], case["second"],
+          " (another recording replayed in between)" if case.get("between") else ""))
+    for field in ("outcome", "pbouts", "recouts", "state"):
+        if obs["replay2"].get(field) != obs["fresh2"].get(field):
+            fails.append(("history-dependent", "%s: the second replay differs from the same replay on a fresh recorder in '%s': "
+                          "%s vs %s" % (w, field, str(obs["replay2"].get(field))[:200], str(obs["fresh2"].get(field))[:200])))
+            break
+    for name in ("replay1", "replay2"):
+        st = obs[name]["state"]
+        if st["active"] or st["force"] or st["counter"] or st["icpt"] or st["public"] != [False, False, True, False, True, True, True]:
+            fails.append(("not-idle", "%s: after %s the recorder is not idle: %s" % (w, name, st)))
+    return fails
+
+
+def features_repatched(case):
+    a, b = set(case["first"]), set(case["second"])
+    return {"stream:recording-changed-under-its-id-between-replays", "cassette:" + case["cassette"], "missing-key-policy:" + case["policy"],
+            "stored-keys:" + ("added" if b > a else "removed" if b < a else "same" if a == b else "replaced"),
+            "replayed-program:" + case["replay"], "other-replay-in-between:%s" % bool(case.get("between"))}
+
+
 def is_rec2(case):
-    return case.get("kind") in ("nested_scope", "file_store")
+    return case.get("kind") in ("nested_scope", "file_store", "repatched")
 
 
 def where(case):
@@ -191,6 +231,8 @@ def direct_metadata(case, obs):
 def features(case):
     if case["kind"] == "file_store":
         return features_file_store(case)
+    if case["kind"] == "repatched":
+        return features_repatched(case)
     fs = {"stream:nested-scope", "cassette:" + case["cassette"], "outer-ends-by:" + case["term"],
           "rate=%s/%s" % tuple(case["outer"]["rate"])}
     for st in case["steps"]:
